@@ -354,16 +354,60 @@ Section Sort.
   Definition buffer_page (b : buffer) : buffer :=
     mkBuffer (map col_page (columns b)) (sorted b).
 
+  (* the column-level API: ColumnBuffers()[k].Page() (and Pages(), ColumnChunks()[k].Pages(),
+     ReadValuesAt on a column with a pending reorder) materialises column k alone; the other
+     columns keep their row -> value maps.  ColumnBuffers()[k].Clone() copies every field of the
+     column (the flag reordered included): a clone is the column itself in this model. *)
+  Definition buffer_page_col (b : buffer) (k : nat) : buffer :=
+    mkBuffer (mapi_from (fun i c => if Nat.eqb i k then col_page c else c) 0%nat (columns b)) (sorted b).
+
+  (* optionalColumnBuffer.ReadValuesAt(values, offset) with len(values) = n (commits f16d85f, 0e9a630):
+       if col.reordered { col.Page() }
+       length := len(definitionLevels) - offset; if len(values) < length { length = len(values) }
+       numNulls1 := nulls of definitionLevels[:offset]
+       numNulls2 := nulls of definitionLevels[offset:offset+length]
+       base.ReadValuesAt(values[:length-numNulls2], offset-numNulls1)
+     then, from the end of the window, a value moves to each position whose level is the maximum
+     and the other positions become nulls of their level: the window of the levels is read like a
+     page whose base starts at offset-numNulls1.  The state after the call is the state after Page. *)
+  Definition ocol_read_values_at (c : ocol) (off n : nat) : ocol * list cell :=
+    let c' := ocol_page c in
+    let dl := deflevels c' in
+    let len := Nat.min n (length dl - off) in
+    let nulls1 := count_nulls (maxdef c') (firstn off dl) in
+    (c', page_values (maxdef c') (firstn len (skipn off dl)) (skipn (off - nulls1) (base c'))).
+
+  (** ReadValuesAt of the tree before commit 0e9a630: the base values are read where they
+      are, also when the rows were exchanged since the last Page *)
+  Definition ocol_read_values_at_pinned (c : ocol) (off n : nat) : list cell :=
+    let dl := deflevels c in
+    let len := Nat.min n (length dl - off) in
+    let nulls1 := count_nulls (maxdef c) (firstn off dl) in
+    page_values (maxdef c) (firstn len (skipn off dl)) (skipn (off - nulls1) (base c)).
+
+  Definition col_read_values_at (c : col) (off n : nat) : col * list cell :=
+    match c with
+    | CReq vals => (c, map (fun v => (Some v, 0%N)) (firstn n (skipn off vals)))
+    | COpt o => (COpt (fst (ocol_read_values_at o off n)), snd (ocol_read_values_at o off n))
+    end.
+
+  (* what ColumnBuffers()[k].ReadValuesAt(values[:n], off) delivers; the buffer afterwards is
+     buffer_page_col b k *)
+  Definition buffer_read_values_at (b : buffer) (k off n : nat) : list cell :=
+    snd (col_read_values_at (nth k (columns b) dcol) off n).
+
   Inductive op :=
   | OWrite (typed : bool) (batch : list (list wval))
   | OSwap (i j : nat)
-  | OPage.
+  | OPage
+  | OPageCol (k : nat).
 
   Definition apply_op (b : buffer) (o : op) : buffer :=
     match o with
     | OWrite typed batch => buffer_write typed b batch
     | OSwap i j => buffer_swap b i j
     | OPage => buffer_page b
+    | OPageCol k => buffer_page_col b k
     end.
 
   Definition run_ops (b : buffer) (ops : list op) : buffer := fold_left apply_op ops b.
@@ -455,6 +499,7 @@ Arguments COpt {V}.
 Arguments OWrite {V}.
 Arguments OSwap {V}.
 Arguments OPage {V}.
+Arguments OPageCol {V}.
 Arguments mkOcol {V}.
 Arguments base {V}.
 Arguments rows {V}.
@@ -496,9 +541,8 @@ Definition less_matrix (b : buffer sval) : list (list bool) :=
 Definition cmp_matrix (schema : list N) (sorting : list sortcol) (rs : list (row sval)) : list (list Z) :=
   map (fun r1 => map (fun r2 => compare_rows sval cmp_sval schema sorting r1 r2) rs) rs.
 
-Definition c10_run (pinned_order pinned_page : bool) (schema : list N) (sorting : list sortcol)
-           (ops : list (op sval))
-  : list (row sval) * list (row sval) * list (list bool) * list (list Z) :=
+Definition c10_state (pinned_order pinned_page : bool) (schema : list N) (sorting : list sortcol)
+           (ops : list (op sval)) : buffer sval :=
   let b0 := if pinned_order then configure_pinned sval schema sorting else configure sval schema sorting in
   let step b o :=
     match o with
@@ -506,6 +550,16 @@ Definition c10_run (pinned_order pinned_page : bool) (schema : list N) (sorting 
                else buffer_page sval b
     | _ => apply_op sval b o
     end in
-  let b := fold_left step ops b0 in
+  fold_left step ops b0.
+
+Definition c10_run (pinned_order pinned_page : bool) (schema : list N) (sorting : list sortcol)
+           (ops : list (op sval))
+  : list (row sval) * list (row sval) * list (list bool) * list (list Z) :=
+  let b := c10_state pinned_order pinned_page schema sorting ops in
   let rs := buffer_rows sval b in
   (rs, buffer_page_rows sval b, less_matrix b, cmp_matrix schema sorting rs).
+
+(** ColumnBuffers()[k].ReadValuesAt(values[:n], off) after the history. *)
+Definition c10_read_at (schema : list N) (sorting : list sortcol) (ops : list (op sval))
+           (k off n : nat) : list (cell sval) :=
+  buffer_read_values_at sval (c10_state false false schema sorting ops) k off n.
